@@ -194,7 +194,7 @@ DIVERGENCE_PROPS = {
     "ready-extra": ["C04", "C15"],      # + C12 when the evaluation re-evaluates an unchanged project and the job is an Output
     "ready-missing": ["C03", "C15"],    # + C01 when the evaluation has no failure / abort
     "running": ["C17"],
-    "cleanup": ["C13"],
+    "cleanup": ["C13", "C17"],
     "upf": ["C07"],
     "finished": ["C05"],
 }
@@ -255,6 +255,8 @@ def replay_eval_(ext, hc, chain, ev, out, verbose, stats, raw, t_rec, t_hist):
         v(["C06"], "pybridge-construction-failed", type(ex).__name__, "building the evaluator through the extension failed: %r" % (ex,))
         return viol, "stop"
     ncalls = 0
+    started_jobs, failed_jobs, aborted_flag = set(), set(), []
+    succeeded_jobs, offered_cleanup = set(), set()
     for t in ev["trace"]:
         op = t["op"]
         if op == "peek":
@@ -319,7 +321,18 @@ def replay_eval_(ext, hc, chain, ev, out, verbose, stats, raw, t_rec, t_hist):
             exc = ex
         ncalls += 1
         cls, msg = classify(exc)
+        if op == "start" and cls == "ok":
+            started_jobs.add(job)
+        if op == "ok" and cls == "ok":
+            succeeded_jobs.add(job)
+        if (op == "fail" and cls == "ok") or cls == "ephchanged":
+            failed_jobs.add(job)
+        if op == "abort":
+            aborted_flag.append(True)
         out.set("pybridge_call_results", "%s:%s" % (op, cls))
+        if cls != t["res"] and op == "abort":
+            v(["C10"], "pybridge-abort-failed", cls, "event_abort() through the extension -> %s %s; through the Rust binding abort_remaining() returned %s" % (cls, msg[:300], t["res"]))
+            return viol, "stop"
         if cls != t["res"]:
             if faulty and t["res"] == "ok" and cls == "api":
                 # the two processes may legitimately have offered different jobs when the fault arrived (hash order)
@@ -350,6 +363,12 @@ def replay_eval_(ext, hc, chain, ev, out, verbose, stats, raw, t_rec, t_hist):
         if op == "abort" and (obs["ready"] or obs["running"] or not obs["finished"]):
             v(["C10"], "pybridge-not-quiescent-after-abort", "", "after event_abort() through the extension: %r" % (obs,))
         diffs = [k for k in obs if obs[k] != t[k]]
+        offered_cleanup.update(obs["cleanup"])
+        if faulty and diffs and set(diffs) <= {"upf", "cleanup"}:
+            # only the upstream-failed report differs: the calls that follow are still the legal ones, keep replaying - the
+            # report is judged by itself when the evaluation has ended (C07 rule below), not against the other process
+            out.count("pybridge_report_differs_under_fault_judged_by_itself")
+            diffs = []
         if diffs:
             if faulty:
                 out.count("pybridge_diverged_under_fault")
@@ -372,6 +391,49 @@ def replay_eval_(ext, hc, chain, ev, out, verbose, stats, raw, t_rec, t_hist):
     out.count("pybridge_comparison_callbacks", cb["n"])
     out.count("pybridge_comparison_judged_altered", cb["true"])
     out.count("pybridge_comparison_judged_unaltered_although_textually_different", cb["false"])
+    if failed_jobs and not aborted_flag:
+        # C07 on the report the python runner reads (no comparison across processes involved): a never-started job
+        # directly below a failed / upstream-failed job is in list_upstream_failed_jobs() when the evaluation ends
+        # (exempt: Ephemerals on which only Ephemerals depend)
+        try:
+            upf = set(e.list_upstream_failed_jobs())
+            ups = {}
+            downs = {}
+            for d, u in ev["edges"]:
+                ups.setdefault(d, set()).add(u)
+                downs.setdefault(u, set()).add(d)
+
+            def useless(j, seen=()):
+                return kinds.get(j) == "Ephemeral" and all(useless(x) for x in downs.get(j, ()))
+
+            bad = failed_jobs | upf
+            for n in ev["nodes"]:
+                j = n["id"]
+                if j in started_jobs or j in bad or useless(j):
+                    continue
+                if ups.get(j, set()) & bad:
+                    v(["C07"], "pybridge-blocked-job-not-reported-upstream-failed", kinds.get(j, "?"), "%s was never started and its direct upstream %r failed / is upstream-failed, but list_upstream_failed_jobs() through the extension does not report it (reported: %r)" % (j, sorted(ups[j] & bad), sorted(upf)))
+                    break
+        except BaseException as ex:  # noqa: B902
+            v(["C06"], "pybridge-call-error", "list_upstream_failed_jobs:%s" % type(ex).__name__, "list_upstream_failed_jobs() raised %r" % (ex,))
+    if not aborted_flag and ev["h_out"] is not None:
+        # C13 on the report the python runner reads: an executed Ephemeral all of whose direct downstreams were executed
+        # successfully or validly skipped has been offered for cleanup by the time the evaluation has ended
+        try:
+            upf_now = set(e.list_upstream_failed_jobs())
+            offered_cleanup.update(e.jobs_ready_for_cleanup())
+            downs2 = {}
+            for d, u in ev["edges"]:
+                downs2.setdefault(u, set()).add(d)
+            for j in sorted(succeeded_jobs):
+                if kinds.get(j) != "Ephemeral" or j in failed_jobs or not downs2.get(j):
+                    continue
+                ok_downs = all((d in succeeded_jobs and d not in failed_jobs) or (d not in started_jobs and d not in upf_now and d not in failed_jobs) for d in downs2[j])
+                if ok_downs and j not in offered_cleanup:
+                    v(["C13"], "pybridge-cleanup-never-offered", "", "Ephemeral %s was executed and all its direct downstreams %r succeeded or were skipped, but jobs_ready_for_cleanup() through the extension never listed it" % (j, sorted(downs2[j])))
+                    break
+        except BaseException as ex:  # noqa: B902
+            v(["C06"], "pybridge-call-error", "jobs_ready_for_cleanup:%s" % type(ex).__name__, "cleanup report raised %r" % (ex,))
     if ev["h_out"] is not None:
         try:
             got = e.new_history()
